@@ -312,7 +312,8 @@ fn iz_spec() -> BoxedStrategy<IzSpec> {
                 ok
             });
             // Info-ZIP itself fails on `-0 -Z bzip2` (bzlib has no level 0)
-            IzSpec { files, fd, fz, level: if bzip2 && level == 0 { 1 } else { level }, bzip2 }
+            // and on `-fd -Z bzip2` ("can't rewrite method")
+            IzSpec { files, fd, fz, level: if bzip2 && level == 0 { 1 } else { level }, bzip2: bzip2 && !fd }
         })
         .boxed()
 }
